@@ -233,7 +233,7 @@ pub fn compare_flat(real: &RealRun, model: &ModelRun, o: CmpOpts) -> Result<(), 
                 }
             }
         }
-        if collapsed != model.lines_visited {
+        if collapsed != model.lines_visited && collapsed != model.lines_visited_without_separator_only_visits {
             return Err(format!("collapsed trace {:?} differs from the lines the model passes through {:?}", collapsed, model.lines_visited));
         }
     }
